@@ -701,10 +701,10 @@ def discharge_call(prog, ctx, fk, b, i, t, n, R, roles, reph_fns, sub13, sub15, 
         if contains_call(recv, lambda m: m == "regex::Regex::new") is not None:
             fp_src = contains_call(recv, lambda m: m.endswith("fmt::format"))
             if fp_src is not None:
-                bad = list(sub15.get("C15.R5", [])) + list(sub15.get("*", []))
-                if not bad:
-                    return True, "D-regex-clean: pattern = ^cleaned[class]{0,n}$ with the cleaning set ⊇ regex meta-characters (C15.R5)"
-                return False, "pattern not shown well-formed (C15.R5: %s)" % bad[0]["key"]
+                # well-formed (C15.R5: ^cleaned[class]{0,n}$ with the cleaning set ⊇ regex meta-characters) is not enough: the compiled size grows
+                # with the typed word and the regex engine refuses programs above its size limit (10 MiB ≈ a word of 400 000 characters)
+                return False, ("the pattern embeds the typed word: it is well-formed, but its compiled size is not bounded — a long enough word exceeds the regex "
+                               "engine's size limit and this unwrap panics (CompiledTooBig)")
             if contains_call(recv, lambda m: True) is not None and any(self_path(x) and self_path(x)[-1:] == ("regex",) or False for x in recv.walk()):
                 pass
             # okkhor-built pattern
